@@ -48,7 +48,7 @@ def describe(tier):
 
 
 def blocks(tier):
-    out = [("residue", {"i": i}) for i in range(len(RESIDUE_DATA))]
+    out = [("residue", {"i": i}) for i in range(len(RESIDUE_DATA))] + [("wide1", {"E": E}) for E in WIDE1] + [("float32", {})]
     for si, cfg in enumerate(SETS[tier]):
         for N in cfg["Ns"]:
             if cfg["D"] == 0:
@@ -62,11 +62,13 @@ def blocks(tier):
     return out
 
 
-def check_formats(kind, mk_cube, call, N, evals, emiss, grand, acc, case, zero_dim=False):
+def check_formats(kind, mk_cube, call, N, evals, emiss, grand, acc, case, zero_dim=False, transform=None):
     agg, ignore, ws, fs = call
     results = {}
     # the SAME argument objects are passed to all five calls, as a caller comparing report formats would do
     f2, _, _, _, w2, _, _ = c03.realise(N, ws, fs)
+    if transform is not None:
+        f2, w2 = transform(f2, w2)
     for fname, fmt in FORMATS:
         try:
             res = Q.call_cube(mk_cube(), agg, f2, w2, ignore, fmt, N=N if (agg == "count" and zero_dim) else None)
@@ -195,7 +197,82 @@ def check_residue(i, acc, only_call=None, only_commons=None):
                      sample=lambda: dict(base, commons=list(cs)))
 
 
+# One dimension with many categories under a several-column fact (cell x column numbering in the cube's narrow coordinate type), and
+# facts / weights in single precision (NaN is still the missing marker there).
+WIDE1 = [100, 200, 300]
+
+
+def _f32(f, w):
+    conv = lambda a: a.astype(numpy.float32) if isinstance(a, numpy.ndarray) and a.dtype.kind == "f" else a  # noqa
+    cv = lambda arg: tuple(conv(a) for a in arg) if isinstance(arg, tuple) else conv(arg)  # noqa
+    return (None if f is None else cv(f)), (w if w is None or isinstance(w, (int, float)) else cv(w))
+
+
+def check_wide1(E, acc, only_call=None, only_data=None):
+    from catii.ccubes import ccube
+    from catii.xcubes import xcube
+
+    N, K = 4, 3
+    pat = tuple((r == 1 and k == 0) or (r == 2 and k == 2) for r in range(N) for k in range(K))
+    calls = []
+    for ignore in (False, True):
+        for agg in ("valid_count", "sum", "mean"):
+            calls.append((agg, ignore, ("none",), (K, "pow2", pat, "nan")))
+            calls.append((agg, ignore, ("array", tuple("PPMP"), "nan"), (K, "pow2", tuple([False] * (N * K)), "pair-huge")))
+    for data in (itertools.product((0, E // 2, E - 1), repeat=N) if only_data is None else [tuple(only_data)]):
+        if len(set(data)) == 1 and data[0] == E // 2:
+            continue
+        dense = numpy.array(data, dtype=numpy.int64)
+        cells = M.cell_rows([dense], (E,), N)
+        idx = M.build_index(dense, 0)
+        for call in (calls if only_call is None else [only_call]):
+            agg, ignore, ws, fs = call
+            f_arg, x, valid, Kc, w_arg, w, wok = c03.realise(N, ws, fs)
+            grand = Q.grand_total(x, w, N, Kc)
+            evals, emiss = Q.oracle(agg, cells, (E,), N, Kc, x, valid, w, wok, ignore)
+            base = {"wide1": E, "data": list(data), "E": E, "agg": agg, "ignore": ignore, "weights": ws, "fact": fs}
+            for dt in (numpy.int64, numpy.uint8 if E <= 256 else numpy.uint16):
+                check_formats("xcube", lambda: xcube([dense.astype(dt)], interacting_shape=(E,)), call, N, evals, emiss, grand, acc, dict(base, cube="xcube", dtype=numpy.dtype(dt).name))
+            check_formats("ccube", lambda: ccube([idx], interacting_shape=(E,)), call, N, evals, emiss, grand, acc, dict(base, cube="ccube"))
+            acc.case(("wide1", E, data, agg, ignore, ws, fs), nontrivial=True, outcome=("wide1", agg, ignore), sample=lambda: base)
+
+
+def check_single_precision(acc, only=None):
+    """Every data vector of (D=1, N=3) and (D=2, N=2) x a short call menu with the facts and weights in float32."""
+    from catii.ccubes import ccube
+    from catii.xcubes import xcube
+
+    for D, N in ((1, 3), (2, 2)):
+        E = 2
+        for datas in itertools.product(itertools.product(range(E), repeat=N), repeat=D):
+            denses = [numpy.array(t, dtype=numpy.int64) for t in datas]
+            shape = (E + 1,) * D
+            cells = M.cell_rows(denses, shape, N)
+            dims = [M.build_index(d, 0) for d in denses]
+            for call in c03.repr_calls(N):
+                agg, ignore, ws, fs = call
+                if ws[0] == "array" and "D" in ws[1]:
+                    continue
+                if fs is not None and fs[3] == "int":
+                    continue
+                f_arg, x, valid, K, w_arg, w, wok = c03.realise(N, ws, fs)
+                grand = Q.grand_total(x, w, N, K)
+                evals, emiss = Q.oracle(agg, cells, shape, N, K, x, valid, w, wok, ignore)
+                base = {"float32": True, "data": [list(t) for t in datas], "E": E, "agg": agg, "ignore": ignore, "weights": ws, "fact": fs}
+                if only is not None and (base["data"], agg, ignore) != only:
+                    continue
+                check_formats("xcube", lambda: xcube(denses, interacting_shape=shape), call, N, evals, emiss, grand, acc, dict(base, cube="xcube"), transform=_f32)
+                check_formats("ccube", lambda: ccube(dims, interacting_shape=shape), call, N, evals, emiss, grand, acc, dict(base, cube="ccube"), transform=_f32)
+                acc.case(("f32", tuple(datas), agg, ignore, ws, fs), nontrivial=True, outcome=("f32", agg, ignore), sample=lambda: base)
+
+
 def run_block(family, p, acc):
+    if family == "wide1":
+        check_wide1(p["E"], acc)
+        return
+    if family == "float32":
+        check_single_precision(acc)
+        return
     if family == "residue":
         check_residue(p["i"], acc)
         return
@@ -216,7 +293,11 @@ def replay(case, site=None):
     acc = Acc(ID, [], stop_at_first=False)
     call = (case["agg"], case["ignore"], c03._tupleize(case["weights"]), c03._tupleize(case["fact"]) if case["fact"] is not None else None)
     cfg = dict(wl=0, Ks=[0], fl=1, forms=["nan"], vals=["pow2"], wforms=True)
-    if "residue" in case:
+    if "wide1" in case:
+        check_wide1(case["wide1"], acc, only_call=call, only_data=case["data"])
+    elif case.get("float32"):
+        check_single_precision(acc, only=(case["data"], case["agg"], case["ignore"]))
+    elif "residue" in case:
         check_residue(case["residue"], acc, only_call=call, only_commons=case.get("commons"))
     elif not case["data"]:
         check_zero(case["N"], cfg, acc, only_call=call)
